@@ -164,7 +164,7 @@ outer:
 				pi.Seek(last)
 				// Take the code so far.
 				if code.Len() > 0 {
-					expr := NewExpression(strings.TrimSpace(code.String()), from, pi.Position())
+					expr := newTrimmedGoExpression(pi, code.String(), from)
 					tf.Nodes = append(tf.Nodes, TemplateFileGoExpression{Expression: expr})
 				}
 				// Carry on parsing.
@@ -180,7 +180,7 @@ outer:
 			code.WriteString(newLine)
 			if _, isEOF, _ := parse.EOF[string]().Parse(pi); isEOF {
 				if code.Len() > 0 {
-					expr := NewExpression(strings.TrimSpace(code.String()), from, pi.Position())
+					expr := newTrimmedGoExpression(pi, code.String(), from)
 					tf.Nodes = append(tf.Nodes, TemplateFileGoExpression{Expression: expr})
 				}
 				// Stop parsing.
@@ -190,4 +190,11 @@ outer:
 	}
 
 	return tf, true, nil
+}
+
+// newTrimmedGoExpression creates the expression for Go code read from position from. The code is
+// stored without surrounding white space, so the expression starts where its first character is.
+func newTrimmedGoExpression(pi *parse.Input, code string, from parse.Position) Expression {
+	leading := len(code) - len(strings.TrimLeftFunc(code, unicode.IsSpace))
+	return NewExpression(strings.TrimSpace(code), pi.PositionAt(from.Index+leading), pi.Position())
 }
